@@ -5,6 +5,8 @@ Functions under contract (all on the REAL bodies, read from the tree at run time
                                                           one value per row, result[i] = dist(X, Y)[i, 0]
   elfi/model/elfi_model.py::Distance.__init__             kwargs plumbing: exactly the keys of {p, w, V, VI} present in kwargs go to the cdist partial, the rest to Discrepancy; raise rule
   elfi/model/elfi_model.py::AdaptiveDistance.__init__ / init_state / init_adaptation_round / add_data / update_distance / nested_distance
+  elfi/methods/inference/samplers.py::Rejection.__init__ (adaptive branch) / Rejection._merge_batch (adaptive lines): the call site that feeds add_data -
+                                                          self.sums = parent names in POSITIONAL order; add_data(*[batch[s] for s in self.sums]) once per batch
 Ghost lemmas (lemmas/c12_lemmas.py::lemma_induction with the statements below): shifted linear sum, shifted second moment,
 weighted = scaled squared differences, extensionality of a finite sum (statement shared with C13).
 
@@ -31,7 +33,8 @@ MANIFEST = {
             'on the real source: the batched Welford update preserves store = [N, mean, sum of squared deviations] over ALL rows of the round for '
             'all batch sizes, widths and values (reals), so scale = population standard deviation independently of the batching; update_distance '
             'appends 1/scale and the euclidean partial with w = (1/scale)^2 and resets the round; the newest nested distance equals '
-            '||(u - v)/scale||_2. Every obligation is generated from the current source and discharged by z3/cvc5; ghost lemmas are verified.',
+            '||(u - v)/scale||_2. The call site in Rejection (__init__: adaptation columns = the distance node\'s parents in positional order for every user output_names order; '
+            '_merge_batch: add_data receives the batch outputs in that order, once per batch) is under contract as well. Every obligation is generated from the current source and discharged by z3/cvc5; ghost lemmas are verified.',
     'note': 'Trusted: pyvc engine and numpy spec table; scipy cdist as a pure row-wise function with the euclidean closed form (sanity-tested); '
             'functools.partial; reals for floats (Welford exists because of floats: only the real-number meaning is proved); scale != 0 assumed for '
             'update_distance (a constant summary column gives an infinite weight: the property formula is undefined there). '
@@ -949,6 +952,135 @@ class NestedDistance(Contract):
         return out
 
 
+# ---------------------------------------------------------------- call site: Rejection feeds the adaptation data
+SAMPLERS = 'elfi/methods/inference/samplers.py::Rejection.'
+
+
+class _ADClass:
+    """what `AdaptiveDistance` is in the globals of samplers.py: only isinstance(node, AdaptiveDistance) is asked"""
+
+
+def _ordered_subsets(names):
+    import itertools
+    out = []
+    for r in range(len(names) + 1):
+        out.extend(list(p) for p in itertools.permutations(names, r))
+    return out
+
+
+class RejectionInit(Contract):
+    """adaptive branch of Rejection.__init__: the adaptation columns are the distance node's PARENTS in positional order, whatever the user
+    lists in output_names.  Concrete: a distance over the parents S1, S2, S3 (and over S1, S2), parameters t1, t2; user output_names = None,
+    [], every ordered subset of the parent names (all permutations, all partial lists), each also with an unrelated node name in between."""
+    target = SAMPLERS + '__init__'
+    prop = 'C12'
+    fin = 2
+
+    def __init__(self, nparents, adaptive=True):
+        self.np_, self.adaptive = nparents, adaptive
+        self.label = '%d-parents%s' % (nparents, '' if adaptive else '-plain-distance')
+
+    def env(self, vc):
+        return dict(super=lambda cls, obj: obj._vc_super(), Rejection=object(), AdaptiveDistance=_ADClass)
+
+    def setup(self, vc):
+        s = NS(events=[])
+        s.parent_names = ['S%d' % (i + 1) for i in range(self.np_)]
+        parents = [types.SimpleNamespace(name=n) for n in s.parent_names]
+        s.node = make_object('DistanceNodeStub', attrs=dict(parents=parents, name='d'),
+                             methods=dict(init_adaptation_round=lambda self_: s.events.append('init_adaptation_round')),
+                             bases=(_ADClass,) if self.adaptive else ())
+        s.model = make_object('ModelStub', attrs=dict(parameter_names=['t1', 't2']),
+                              methods={'__getitem__': lambda self_, k: s.node if k == 'd' else (_ for _ in ()).throw(KeyError(k))})
+        choices = [None] + _ordered_subsets(s.parent_names)
+        choices += [c[:1] + ['x'] + c[1:] for c in choices[1:] if len(c) <= 2]
+        s.user = vc.fork_values('output_names', choices)
+        s.user0 = None if s.user is None else list(s.user)
+        s.arg = None if s.user is None else list(s.user)
+        s.kw = dict(batch_size=7, seed=1)
+        s.super_calls = []
+
+        def base_init(self_, *a, **kw):
+            s.events.append('super.__init__')
+            s.super_calls.append((a, dict(kw)))
+        base = make_object('SamplerStub', methods={'__init__': base_init})
+
+        def resolve(self_, model, target):
+            s.events.append('_resolve_model')
+            s.resolved = (model, target)
+            return s.model, 'd'
+        s.self = make_object('RejectionStub', methods=dict(_vc_super=lambda self_: base, _resolve_model=resolve))
+        s.model_arg = object()
+        return s, (s.self, s.model_arg), dict(discrepancy_name='dd', output_names=s.arg, **s.kw)
+
+    def ensures(self, s, result):
+        me = s.self
+        if len(s.super_calls) != 1:
+            return [('Sampler.__init__ is called exactly once', z3.BoolVal(False))]
+        (a, kw) = s.super_calls[0]
+        names = list(a[1]) if len(a) == 2 and isinstance(a[1], list) else None
+        user = s.user0 or []
+        head = ['d', 't1', 't2'] + user
+        out = [('model and target are resolved first, from the caller\'s arguments', z3.BoolVal(s.events[:1] == ['_resolve_model'] and s.resolved == (s.model_arg, 'dd'))),
+               ('the base class receives the resolved model, the output names and the remaining keyword arguments', z3.BoolVal(len(a) == 2 and a[0] is s.model and names is not None and kw == s.kw)),
+               ('the discrepancy name is recorded', z3.BoolVal(getattr(me, 'discrepancy_name', None) == 'd')),
+               ('adaptive flag = the target is an AdaptiveDistance', z3.BoolVal(getattr(me, 'adaptive', None) is self.adaptive)),
+               ('output names start with the discrepancy, the parameters and the user\'s names in the user\'s order', z3.BoolVal(names is not None and names[:len(head)] == head))]
+        if not self.adaptive:
+            out.append(('nothing is added for a plain distance; the adaptation round is not touched', z3.BoolVal(names == head and 'init_adaptation_round' not in s.events)))
+            return out
+        sums = getattr(me, 'sums', None)
+        out += [('the adaptation columns (self.sums) are the names of the distance node\'s parents IN POSITIONAL ORDER, whatever the order in output_names',
+                 z3.BoolVal(isinstance(sums, list) and sums == s.parent_names)),
+                ('every summary of the distance is an output exactly once (needed as adaptation data); nothing else is added',
+                 z3.BoolVal(names is not None and all(names.count(n) == 1 for n in s.parent_names) and sorted(names[len(head):]) == sorted(n for n in s.parent_names if n not in user))),
+                ('a new adaptation round is started exactly once, before the sampler is initialised', z3.BoolVal(s.events == ['_resolve_model', 'init_adaptation_round', 'super.__init__']))]
+        return out
+
+
+class MergeBatchAdaptive(Contract):
+    """adaptive lines of Rejection._merge_batch: add_data is called exactly once, on the distance node of the sampler's model, with the batch outputs
+    of self.sums IN THAT ORDER (positional arguments = columns of the adaptation data).  The rest of the REAL body runs on a minimal
+    buffer (only the discrepancy column, no threshold, batch_size 1) and is not specified here: it is under contract in C01 (MergeBatch)."""
+    target = SAMPLERS + '_merge_batch'
+    prop = 'C12'
+    fin = 3
+
+    def __init__(self, adaptive=True):
+        self.adaptive = adaptive
+        self.label = 'adaptive' if adaptive else 'not-adaptive'
+
+    def setup(self, vc):
+        n = z3.Int('n_buffer')
+        vc.fin_bounds.append(n)
+        s = NS(n=n, calls=[], events=[])
+        orders = [['S1', 'S2', 'S3'], ['S3', 'S1', 'S2'], ['S2', 'S1'], ['S1']]
+        s.sums = vc.fork_values('sums', orders) if self.adaptive else None
+        s.sums0 = None if s.sums is None else list(s.sums)
+        s.node = make_object('AdaptiveDistanceStub', methods=dict(add_data=lambda self_, *data, **kw: s.calls.append((data, kw))))
+        s.model = make_object('ModelStub', methods={'__getitem__': lambda self_, k: (s.events.append(k), s.node)[1]})
+        s.batch = {'d': SArr.fresh('batch_d', (1,)), 'S1': object(), 'S2': object(), 'S3': object(), 't1': object()}
+        s.batch0 = dict(s.batch)
+        attrs = dict(state={'samples': {'d': SArr.fresh('buf_d', (n,))}}, adaptive=self.adaptive, model=s.model, discrepancy_name='d',
+                     objective={'n_samples': SInt(n - 1)}, batch_size=1)
+        if self.adaptive:
+            attrs['sums'] = s.sums
+        s.self = make_object('RejectionStub', attrs=attrs)
+        return s, (s.self, s.batch), {}
+
+    def requires(self, s):
+        return [s.n >= 2]
+
+    def ensures(self, s, result):
+        if not self.adaptive:
+            return [('no adaptation data is added for a plain distance', z3.BoolVal(s.calls == [] and s.events == []))]
+        ok = len(s.calls) == 1 and s.calls[0][1] == {} and len(s.calls[0][0]) == len(s.sums0) and \
+            all(a is s.batch0[k] for a, k in zip(s.calls[0][0], s.sums0))
+        return [('add_data is called exactly once, on the sampler\'s distance node', z3.BoolVal(len(s.calls) == 1 and s.events == ['d'])),
+                ('its positional arguments are batch[s] for s in self.sums, in that order', z3.BoolVal(ok)),
+                ('self.sums and the batch are not modified', z3.BoolVal(s.self.sums is s.sums and s.sums == s.sums0 and all(s.batch.get(k) is v for k, v in s.batch0.items()) and set(s.batch) == set(s.batch0)))]
+
+
 CONTRACTS = [DistanceAsDiscrepancy('s'), DistanceAsDiscrepancy('v'), DistanceAsDiscrepancy('sv'), DistanceAsDiscrepancy('vs', extra=('p', 'w')),
              DistanceAsDiscrepancy('vsv', extra=('V',)), DistanceAsDiscrepancy('ss', extra=('VI',)),
              DistanceAsDiscrepancy('ss', 'fn1'), DistanceAsDiscrepancy('sv', 'fn21'), DistanceAsDiscrepancy('sv', 'fn22'),
@@ -956,6 +1088,7 @@ CONTRACTS = [DistanceAsDiscrepancy('s'), DistanceAsDiscrepancy('v'), DistanceAsD
              AdaptiveInit(2), AdaptiveInit(0), InitState(), InitRound(),
              AddData(True, 's'), AddData(False, 's'), AddData(True, 'sv'), AddData(False, 'sv'), AddData(False, 'vsv'),
              UpdateDistance(1), UpdateDistance(2), NestedDistance(1), NestedDistance(2), NestedDistance(3),
+             RejectionInit(3), RejectionInit(2), RejectionInit(2, adaptive=False), MergeBatchAdaptive(True), MergeBatchAdaptive(False),
              LemmaSumExt(), LemmaShiftLin(), LemmaShiftMom(), LemmaShiftMom0(), LemmaWeightedScaled(), LemmaWelford(), LemmaVariance()]
 
 TRUSTED_BASE = ['pyvc engine: proxies, path forking, numpy spec table (column_stack / atleast_2d / concatenate / reshape layouts, sum(axis=0) = column-wise mathematical finite sum, elementwise broadcasting)',
@@ -969,6 +1102,7 @@ ASSUMPTIONS = ['A-REAL: floats are reals (the Welford update exists because they
                'summary outputs are (B,) or (B, w) arrays with a common batch size B >= 1; observed summaries have the matching width (shape (1,), 0-d, (1, w) or (w,))',
                'add_data: the first batch of a round has k >= 1 rows (later batches may be empty); tuples of summaries of CONCRETE arity (1..3, listed layouts) with symbolic batch size and widths',
                'update_distance: every column of scale is non-zero (a constant summary column gives weight inf and NaN distances: the formula of the property is undefined there)',
+               'Rejection.__init__/_merge_batch: concrete distance nodes with 2 and 3 parents; user output_names enumerated exhaustively (None, every ordered subset of the parent names, each also with an unrelated name); model, node and base-class __init__ are recording stubs; the non-adaptive part of _merge_batch runs on a minimal buffer and is specified in C01',
                'history quantifier: store_ok(N) is the inductive invariant of a round (established by init_adaptation_round with N = 0, preserved by every add_data); '
                'the induction over the calls of a round is the meta-argument, each step is an obligation',
                'an arbitrary column / row is a free constant of the VC (validity for it = validity for all columns / rows)']
@@ -1032,7 +1166,7 @@ def bounded(tier, seed):
     return b.run(tier, seed)
 
 
-_FAMILY = [('distance_as_discrepancy', 'distance'), ('Distance.__init__', 'distance'), ('AdaptiveDistance', 'adaptive')]
+_FAMILY = [('distance_as_discrepancy', 'distance'), ('Distance.__init__', 'distance'), ('AdaptiveDistance', 'adaptive'), ('Rejection', 'sampler')]
 _replay_cache = {}
 
 
